@@ -5,6 +5,7 @@ import (
 	"fmt"
 	"hash/fnv"
 	"reflect"
+	"runtime/debug"
 	"sort"
 	"strings"
 	"unsafe"
@@ -320,4 +321,20 @@ func histString(prefix, h []string) string {
 	}
 	b.WriteString(strings.Join(h, "; "))
 	return b.String()
+}
+
+// panicAsViolation turns a panic of the code under test inside a sequential step into a violation
+// ("never crashes" is part of every property); deferred by every Apply.
+func panicAsViolation(op string, sig, msg *string) {
+	if r := recover(); r != nil {
+		*sig = "panic"
+		st := string(debug.Stack())
+		if i := strings.Index(st, "panic("); i >= 0 {
+			st = st[i:]
+		}
+		if len(st) > 1500 {
+			st = st[:1500]
+		}
+		*msg = fmt.Sprintf("operation %q panicked: %v\n%s", op, r, st)
+	}
 }
